@@ -23,9 +23,10 @@ CFG = dict(
         "bvh_build_covers", "bvh_built_hit_eq_hitlist", "octree_hit_eq_hitlist",
         # round 2 (Props/C16Prims.lean): the real primitives are hit only inside their boxes; BVH = HitList without primitive hypothesis
         "sphere_hit_on_sphere", "sphere_hit_in_box", "rect_hit_in_box", "rayIntersectsTri_in_box", "tri_hit_in_box",
-        "prim_hit_in_box", "prim_hit_slab", "bvh_hit_eq_list_strict", "prims_bvh_hit_eq_hitlist",
+        "prim_hit_in_box", "prim_hit_slab", "prim_first_hit", "bvh_hit_eq_list_strict", "prims_bvh_hit_eq_hitlist",
+        "prims_bvh_built_hit_eq_hitlist", "slab_rejects_point_range", "bvh_differs_on_point_range",
     ],
-    helper_theorems=["sphereHit_eq", "rectHit_eq", "rayIntersectsTri_eq", "prim_box_wf'"],
+    helper_theorems=["sphereHit_eq", "rectHit_eq", "rayIntersectsTri_eq", "prim_box_wf'", "listHit_guard"],
     streams=[dict(name="c16", n=dict(quick=150, thorough=6000)),
              dict(name="c16prims", n=dict(quick=400, thorough=20000))],
     trusted=T_COMMON + [
